@@ -175,3 +175,79 @@ impl<T> Default for IndexSet<T> {
     fn default() -> (r: IndexSet<T>) ensures r@ == Seq::<T>::empty() { unimplemented!() }
 }
 // @broadcast axiom_indexset_unique
+
+// ---- iterator chains over IndexMap::iter() (closure-parametric ASSUMED contracts on std iterator adaptors) ----
+// `m.iter()`: the entries in insertion order (view: the entries by value)
+#[verifier::external_body]
+#[verifier::reject_recursive_types(K)]
+#[verifier::reject_recursive_types(V)]
+pub struct MapIter<'a, K, V> { _p: core::marker::PhantomData<&'a (K, V)> }
+impl<'a, K, V> View for MapIter<'a, K, V> { type V = Seq<(K, V)>; uninterp spec fn view(&self) -> Seq<(K, V)>; }
+// generic stub iterator (result of `.map(..)`): the remaining items in order
+#[verifier::external_body]
+#[verifier::reject_recursive_types(T)]
+pub struct SIter<T> { _p: core::marker::PhantomData<T> }
+impl<T> View for SIter<T> { type V = Seq<T>; uninterp spec fn view(&self) -> Seq<T>; }
+// target of `.collect::<C>()`
+pub trait SCollect<T>: Sized {
+    spec fn sc_items(&self) -> Seq<T>;
+}
+impl<T> SCollect<T> for Vec<T> {
+    open spec fn sc_items(&self) -> Seq<T> { self@ }
+}
+
+impl<K, V> IndexMap<K, V> {
+    #[verifier::external_body]
+    pub fn iter(&self) -> (r: MapIter<'_, K, V>) ensures r@ == self@ { unimplemented!() }
+
+    // retain(f): keeps exactly the entries on which f returns true, in order.  Pinned only for closures whose
+    // contract says they leave the value untouched and decide by a predicate on (key, value).
+    #[verifier::external_body]
+    pub fn retain<F: FnMut(&K, &mut V) -> bool>(&mut self, f: F)
+        requires forall|k: &K, v: &mut V| #[trigger] f.requires((k, v)),
+        ensures
+            forall|p: spec_fn((K, V)) -> bool| #![trigger seq_filter_by(old(self)@, p)]
+                (forall|k: K, v: &mut V, b: bool| #[trigger] f.ensures((&k, v), b) ==> b == p((k, *v)) && *final(v) == *v)
+                ==> final(self)@ == seq_filter_by(old(self)@, p),
+    { unimplemented!() }
+}
+impl<'a, K, V> MapIter<'a, K, V> {
+    // Iterator::filter: the items on which the predicate holds, order kept
+    #[verifier::external_body]
+    pub fn filter<F: FnMut(&(&'a K, &'a V)) -> bool>(self, f: F) -> (r: MapIter<'a, K, V>)
+        requires forall|x: &(&'a K, &'a V)| #[trigger] f.requires((x,)),
+        ensures
+            forall|p: spec_fn((K, V)) -> bool| #![trigger seq_filter_by(self@, p)]
+                (forall|k: K, v: V, b: bool| #[trigger] f.ensures((&(&k, &v),), b) ==> b == p((k, v)))
+                ==> r@ == seq_filter_by(self@, p),
+    { unimplemented!() }
+    // Iterator::map: one result per item, in order, each related to its item by the closure's contract
+    #[verifier::external_body]
+    pub fn map<U, G: FnMut((&'a K, &'a V)) -> U>(self, g: G) -> (r: SIter<U>)
+        requires forall|x: (&'a K, &'a V)| #[trigger] g.requires((x,)),
+        ensures
+            r@.len() == self@.len(),
+            forall|i: int| 0 <= i < self@.len() ==> g.ensures(((&self@[i].0, &self@[i].1),), #[trigger] r@[i]),
+    { unimplemented!() }
+}
+impl<T> SIter<T> {
+    // Iterator::collect into a Vec: all items, in order
+    #[verifier::external_body]
+    pub fn collect<C: SCollect<T>>(self) -> (r: C) ensures r.sc_items() == self@ { unimplemented!() }
+}
+impl<T> IndexSet<T> {
+    // IntoIterator for IndexSet: yields the elements in insertion order.  MODELLED as the Vec of the elements
+    // (only ever used in `for` position), so that Verus' `for` support applies.
+    #[verifier::external_body]
+    pub fn into_iter(self) -> (r: Vec<T>) ensures r@ == self@ { unimplemented!() }
+}
+// R11 idiom: the match arm `SocketAddr::V4(dst) if dst.ip().is_broadcast()` (this prelude models SocketAddr as
+// (ip, port), not as the enum of SocketAddrV4/V6): the address is an IPv4 address and it is 255.255.255.255
+impl SocketAddr {
+    pub open spec fn spec_is_v4_broadcast(&self) -> bool {
+        match self.ip_ { IpAddr::V4(a) => a.spec_is_broadcast(), IpAddr::V6(_) => false }
+    }
+    pub fn idiom_is_v4_broadcast(&self) -> (b: bool) ensures b == self.spec_is_v4_broadcast() {
+        match self.ip_ { IpAddr::V4(a) => a.is_broadcast(), IpAddr::V6(_) => false }
+    }
+}
